@@ -55,6 +55,33 @@ pub fn p_c01_neighbourhood(lon: f64, lat: f64, w: i64) {
   }
 }
 
+/// Replay search for a solver counter-example (lon, lat) found under libm contracts: the solver chose the libm values, so the
+/// exact position need not fail with the real libm. Search: the position itself, its +-16 ulp neighbourhood, and the same
+/// with the longitude snapped to the nearest multiple of pi/4 (both signs, +-2pi) and the latitude snapped to 0, +-asin(2/3), +-pi/2.
+#[cfg(not(kani))]
+pub fn p_c01_search(lon: f64, lat: f64) {
+  p_c01_all_depths(lon, lat);
+  p_c01_neighbourhood(lon, lat, 16);
+  let k = (lon / (0.25 * REF_PI)).round();
+  let t = 0.72972765622696636344_f64;
+  let lats = [lat, 0.0, t, -t, 0.5 * REF_PI, -0.5 * REF_PI];
+  let mut dk = -1.0;
+  while dk <= 1.0 {
+    let l0 = (k + dk) * 0.25 * REF_PI;
+    let lons = [l0, l0 - 2.0 * REF_PI, l0 + 2.0 * REF_PI, -l0];
+    let mut a = 0usize;
+    while a < 4 {
+      let mut b = 0usize;
+      while b < 6 {
+        if lons[a].abs() <= 25.2 { p_c01_neighbourhood(lons[a], lats[b], 3); }
+        b += 1;
+      }
+      a += 1;
+    }
+    dk += 1.0;
+  }
+}
+
 /// Pull back of an interface triple (base cell, l, h) to the sphere (public unproj) and search around it.
 #[cfg(not(kani))]
 pub fn p_c01_pullback(d0h: u8, l: f64, h: f64) {
@@ -67,6 +94,7 @@ pub fn p_c01_pullback(d0h: u8, l: f64, h: f64) {
   let (lon, lat) = hp::unproj(xm, y);
   p_c01_neighbourhood(lon, lat, 24);
   p_c01_neighbourhood(lon - 2.0 * REF_PI, lat, 8);
+  p_c01_search(lon, lat);
 }
 
 pub fn p_c01_guard(depth: u8, lon: f64, lat: f64) {
